@@ -64,7 +64,7 @@ def mask_pattern(rng, n, p_bad=None):
 
 class C17(Check):
     ID = 'C17'
-    MIN_NONTRIVIAL = 200
+    MIN_NONTRIVIAL = 1000
     RULE = ('djs_reject on 1-D float64 vectors of 1-200 points (and 2-3-D arrays without grow) under random combinations of '
             'sigma (array, with zeros, or scalar) | invvar (with zeros) | neither, lower/upper/maxdev, bool or 0/1 integer '
             'inmask (random, runs, ends, all-bad), previous outmask, sticky, grow 0-6 (also > n), with residuals planted at '
@@ -129,6 +129,15 @@ class C17(Check):
         self.rec.wrap(S2, 'djs_maskinterp', label='pydl.pydlspec2d.spec2d.djs_maskinterp(alias)')
         self.rec.wrap(S2, 'aesthetics')
         self.rec.wrap(S1, 'skymask')
+        self._max_rel = 0.0
+
+    def shard_extra(self):
+        return {'x_interp_max_rel_err': self._max_rel}
+
+    def extra_evidence(self, merged):
+        v = merged.get('x_interp_max_rel_err') or [0.0]
+        return {'interp_max_rel_err_observed': max(v), 'interp_rel_tolerance': 1e-9,
+                'reject_ambiguity_band_rel': R.BAND}
 
     def teardown(self):
         self.rec.unwrap_all()
@@ -137,17 +146,17 @@ class C17(Check):
     def budget(self, tier):
         q = tier == 'quick'
         return {
-            'reject_options': 500 if q else 12000,
-            'reject_near': 250 if q else 6000,
-            'reject_grow': 500 if q else 12000,
-            'reject_small_history': 400 if q else 8000,
-            'reject_nd': 120 if q else 3000,
-            'interp_1d': 400 if q else 10000,
-            'interp_nd': 300 if q else 6000,
-            'aesthetics': 300 if q else 8000,
-            'median_1d': 250 if q else 6000,
-            'median_2d': 100 if q else 2500,
-            'skymask': 300 if q else 8000,
+            'reject_options': 2500 if q else 40000,
+            'reject_near': 1200 if q else 20000,
+            'reject_grow': 2500 if q else 40000,
+            'reject_small_history': 2000 if q else 25000,
+            'reject_nd': 600 if q else 10000,
+            'interp_1d': 2000 if q else 30000,
+            'interp_nd': 1500 if q else 20000,
+            'aesthetics': 1500 if q else 25000,
+            'median_1d': 1200 if q else 20000,
+            'median_2d': 500 if q else 8000,
+            'skymask': 1500 if q else 25000,
         }
 
     # ------------------------------------------------------------------ gen
@@ -580,7 +589,7 @@ class C17(Check):
         def same(a, b):
             return (a == b) | (np.isnan(a) & np.isnan(b))
         sel = kindarr == 'g'
-        ok = got[sel].view(np.int64) == y_in[sel].view(np.int64)
+        ok = got[sel] == y_in[sel]            # by value: -0.0 == 0.0 (the one-good-sample broadcast is 0 + value)
         out.expect(ok.all(), 'interp-good-changed', 'an unmasked sample was changed',
                    where=np.argwhere(sel)[~ok][:10], got=got[sel][~ok][:10], was=y_in[sel][~ok][:10], axis=axis)
         out.count('interp_good_samples_compared', int(sel.sum()))
@@ -610,6 +619,8 @@ class C17(Check):
             with np.errstate(all='ignore'):
                 rel = err / np.where(scale[sel] > 0, scale[sel], 1.0)
             out.info['max_rel_err'] = float(np.nanmax(rel))
+            if ok.all():
+                self._max_rel = max(self._max_rel, out.info['max_rel_err'])
 
     # .................................................................. aesthetics
     def run_aesthetics(self, case, out):
